@@ -793,6 +793,146 @@ Proof. intros r s s' d Hp Hwf. apply violated_srel, sqr_of; assumption. Qed.
 
 Print Assumptions violated_perm_inside_schema.
 
+(* ------------------------------------------------------------------ well-formedness is preserved *)
+Section WfS.
+  Variables s s' : sdocument.
+  Hypothesis Hs : sqr s s'.
+
+  Lemma is_input_named_srel n : is_input_named s n = is_input_named s' n.
+  Proof. unfold is_input_named. destruct (sr_type _ _ Hs n) as [t t' Ht|]; [apply tdr_is_input, Ht|reflexivity]. Qed.
+  Lemma is_output_named_srel n : is_output_named s n = is_output_named s' n.
+  Proof. unfold is_output_named. destruct (sr_type _ _ Hs n) as [t t' [[] _]|]; reflexivity. Qed.
+
+  Lemma wf_input_values_srel a a' : Permutation a a' -> wf_input_values s a = wf_input_values s' a'.
+  Proof.
+    intro H. unfold wf_input_values. rewrite (nodup_names_perm _ _ (Permutation_map iv_name H)). f_equal.
+    rewrite (forallb_perm _ _ _ H). apply forallb_ext_in. intros iv _. apply is_input_named_srel.
+  Qed.
+  Lemma pfd_fields f f' : pfd f f' -> fd_name f = fd_name f' /\ fd_type f = fd_type f' /\ Permutation (fd_args f) (fd_args f').
+  Proof. intros []. cbn. repeat split. assumption. Qed.
+  Lemma wf_fields_srel fs fs' : PermR pfd fs fs' -> wf_fields s fs = wf_fields s' fs'.
+  Proof.
+    intro H. unfold wf_fields. f_equal.
+    - apply nodup_names_perm, PermR_eq_perm. apply (PermR_map pfd); [exact H|]. intros x y _. apply pfd_name.
+    - apply (PermR_forallb pfd); [exact H|]. intros f f' _ Hf. destruct (pfd_fields _ _ Hf) as (_ & Ht & Ha).
+      rewrite Ht, is_output_named_srel, (wf_input_values_srel _ _ Ha). reflexivity.
+  Qed.
+
+  Lemma is_possible_type_srel a a' b b' : tdr a a' -> tdr b b' -> is_possible_type a b = is_possible_type a' b'.
+  Proof.
+    intros [Ha _] Hb. destruct Ha; cbn [is_possible_type]; try reflexivity.
+    - apply mem_name_eqset, perm_eqset, ptd_interfaces, Hb.
+    - rewrite (tdr_name _ _ Hb). apply existsb_perm. assumption.
+  Qed.
+  Lemma tdr_kind t t' : tdr t t' ->
+    td_is_abstract t = td_is_abstract t' /\ td_is_interface t = td_is_interface t' /\ td_is_object t = td_is_object t'.
+  Proof. intros [[] _]; repeat split. Qed.
+  Lemma is_subtype_fuel_srel : forall fuel a b, is_subtype_fuel fuel s a b = is_subtype_fuel fuel s' a b.
+  Proof.
+    induction fuel as [|f IH]; intros a b; [reflexivity|]. cbn [is_subtype_fuel]. rewrite !IH.
+    destruct (sr_type _ _ Hs (inner_type a)) as [x x' Hx|], (sr_type _ _ Hs (inner_type b)) as [y y' Hy|];
+      try reflexivity.
+    destruct (tdr_kind _ _ Hx) as (_ & E2 & E3). destruct (tdr_kind _ _ Hy) as (E1 & _ & _).
+    rewrite E1, E2, E3, (is_possible_type_srel _ _ _ _ Hy Hx). reflexivity.
+  Qed.
+  Lemma is_subtype_srel a b : is_subtype s a b = is_subtype s' a b.
+  Proof. apply is_subtype_fuel_srel. Qed.
+
+  Lemma implements_fields_srel impl impl' ifs ifs' :
+    PermR pfd impl impl' -> nodup_names (map fd_name impl) = true -> Forall nd_fd impl -> PermR pfd ifs ifs' ->
+    implements_fields s impl ifs = implements_fields s' impl' ifs'.
+  Proof.
+    intros Hi Hn Hnd Hf. unfold implements_fields. apply (PermR_forallb pfd); [exact Hf|].
+    intros fi fi' _ Hfi. destruct (pfd_fields _ _ Hfi) as (En & Et & Ea). rewrite <- En, <- Et.
+    destruct (fields_find impl impl' (fd_name fi) Hi Hn Hnd) as [f f' Hff|]; [|reflexivity].
+    rewrite (fdr_type _ _ Hff), is_subtype_srel. f_equal.
+    rewrite (forallb_perm _ _ _ Ea). apply forallb_ext_in. intros ai _.
+    rewrite (ivs_find _ _ (iv_name ai) (fdr_args _ _ Hff)). reflexivity.
+  Qed.
+
+  Lemma wf_implements_srel i i' fs fs' :
+    Permutation i i' -> PermR pfd fs fs' -> nodup_names (map fd_name fs) = true -> Forall nd_fd fs ->
+    wf_implements s i fs = wf_implements s' i' fs'.
+  Proof.
+    intros Hi Hf Hn Hnd. unfold wf_implements. rewrite (nodup_names_perm _ _ Hi). f_equal.
+    rewrite (forallb_perm _ _ _ Hi). apply forallb_ext_in. intros x _.
+    destruct (sr_type _ _ Hs x) as [t t' [Hp Hnt]|]; [|reflexivity].
+    destruct Hp as [|n j j' gs gs' Hj Hg| | | |]; try reflexivity.
+    rewrite (implements_fields_srel fs fs' gs gs' Hf Hn Hnd Hg). f_equal.
+    rewrite (forallb_perm _ _ _ Hj). apply forallb_ext_in. intros k _. apply mem_name_eqset, perm_eqset, Hi.
+  Qed.
+
+  Lemma wf_type_srel t t' : tdr t t' -> wf_type s t = wf_type s' t'.
+  Proof.
+    intros [Hp Hn]. destruct Hp as [n i i' fs fs' Hi Hf|n i i' fs fs' Hi Hf|n m m' Hm|n|n v v' Hv|n f f' Hf];
+      cbn [wf_type nd_td] in *.
+    - destruct Hn as [Hn Hnd]. rewrite (wf_fields_srel _ _ Hf), (wf_implements_srel _ _ _ _ Hi Hf Hn Hnd). reflexivity.
+    - destruct Hn as [Hn Hnd]. rewrite (wf_fields_srel _ _ Hf), (wf_implements_srel _ _ _ _ Hi Hf Hn Hnd).
+      rewrite (mem_name_eqset n _ _ (perm_eqset _ _ Hi)). reflexivity.
+    - rewrite (nodup_names_perm _ _ Hm), (forallb_perm _ _ _ Hm). f_equal. apply forallb_ext_in. intros x _.
+      destruct (sr_type _ _ Hs x) as [a b [[] _]|]; reflexivity.
+    - reflexivity.
+    - apply nodup_names_perm, Hv.
+    - apply wf_input_values_srel, Hf.
+  Qed.
+
+  Lemma ivs_proper_perm a a' : Permutation a a' -> ivs_proper a = ivs_proper a'.
+  Proof. apply forallb_perm. Qed.
+  Lemma type_proper_srel t t' : ptd t t' -> type_proper t = type_proper t'.
+  Proof.
+    intros [n i i' fs fs' Hi Hf|n i i' fs fs' Hi Hf|n m m' Hm|n|n v v' Hv|n f f' Hf]; cbn [type_proper]; try reflexivity;
+      try (apply ivs_proper_perm, Hf);
+      (unfold fields_proper; apply (PermR_forallb pfd); [exact Hf|]; intros x y _ Hxy;
+       destruct (pfd_fields _ _ Hxy) as (_ & -> & Ha); rewrite (ivs_proper_perm _ _ Ha); reflexivity).
+  Qed.
+End WfS.
+
+Lemma perm_inside_directive_defs s s' : perm_inside_schema s s' -> Forall2 pdd (directive_defs s) (directive_defs s').
+Proof.
+  induction 1 as [|x y r r' Hxy _ IH]; [constructor|].
+  destruct Hxy; cbn [directive_defs flat_map app]; try exact IH. constructor; assumption.
+Qed.
+Lemma perm_inside_schema_defs s s' : perm_inside_schema s s' -> schema_defs s = schema_defs s'.
+Proof.
+  induction 1 as [|x y r r' Hxy _ IH]; [reflexivity|].
+  destruct Hxy; cbn [schema_defs flat_map app]; try exact IH. f_equal. exact IH.
+Qed.
+
+Theorem wf_schema_perm_inside : forall s s', perm_inside_schema s s' -> wf_schema s = true -> wf_schema s' = true.
+Proof.
+  intros s s' Hp Hwf. pose proof (sqr_of s s' Hp Hwf) as Hs. rewrite <- Hwf. symmetry. unfold wf_schema.
+  assert (Htd : Forall2 tdr (type_defs s) (type_defs s')).
+  { eapply Forall2_impl_in; [|apply (sr_types _ _ Hs)]. intros t t' Ht Hpt. split; [exact Hpt|].
+    pose proof (wf_types s Hwf) as H. rewrite forallb_forall in H. eapply wf_type_nd, H, Ht. }
+  pose proof (perm_inside_directive_defs s s' Hp) as Hdd.
+  assert (Ere : forall k, root_entry_ok s k = root_entry_ok s' k).
+  { intro k. unfold root_entry_ok, root_name. rewrite <- (sr_schema _ _ Hs).
+    destruct (match find_schema_def s with
+              | Some sd => match k with OpSelSet | OpQuery => sd_query sd | OpMutation => sd_mutation sd | OpSubscription => sd_subscription sd end
+              | None => Some (default_root_name k) end) as [n|]; [|reflexivity].
+    rewrite (orel_is_some _ _ _ (object_type_by_name_rel s s' Hs n)). reflexivity. }
+  assert (E1 : map td_name (type_defs s) = map td_name (type_defs s'))
+    by (apply (Forall2_map_eq tdr); [exact Htd|apply tdr_name]).
+  assert (E2 : map dd_name (directive_defs s) = map dd_name (directive_defs s'))
+    by (apply (Forall2_map_eq pdd); [exact Hdd|apply pdd_name]).
+  assert (E3 : forallb (fun x => match x with SDTypeExt _ => false | _ => true end) s =
+               forallb (fun x => match x with SDTypeExt _ => false | _ => true end) s').
+  { apply F2_forallb. eapply Forall2_impl_in; [|exact Hp]. intros x y _ []; reflexivity. }
+  assert (E4 : query_entry_ok s = query_entry_ok s') by (unfold query_entry_ok; rewrite (sr_schema _ _ Hs); reflexivity).
+  assert (E5 : forallb (wf_type s) (type_defs s) = forallb (wf_type s') (type_defs s')).
+  { apply F2_forallb. eapply Forall2_impl_in; [|exact Htd]. intros t t' _ Ht. apply wf_type_srel; assumption. }
+  assert (E6 : forallb (fun x => wf_input_values s (dd_args x)) (directive_defs s) =
+               forallb (fun x => wf_input_values s' (dd_args x)) (directive_defs s')).
+  { apply F2_forallb. eapply Forall2_impl_in; [|exact Hdd]. intros x y _ [].
+    cbn [dd_args]. apply wf_input_values_srel; assumption. }
+  assert (E7 : schema_types_proper s = schema_types_proper s').
+  { unfold schema_types_proper. f_equal.
+    - apply F2_forallb. eapply Forall2_impl_in; [|apply (sr_types _ _ Hs)]. intros t t' _. apply type_proper_srel.
+    - apply F2_forallb. eapply Forall2_impl_in; [|exact Hdd]. intros x y _ []. cbn [dd_args]. apply ivs_proper_perm. assumption. }
+  rewrite E1, E2, E3, (perm_inside_schema_defs s s' Hp), E4, (orel_is_some _ _ _ (root_rel s s' Hs OpQuery)),
+    (Ere OpMutation), (Ere OpSubscription), E5, E6, E7. reflexivity.
+Qed.
+
 (* ------------------------------------------------------------------ the model's verdicts *)
 Lemma rule_in_scope_srel r s s' d : sqr s s' -> rule_in_scope r s d = rule_in_scope r s' d.
 Proof.
@@ -803,14 +943,15 @@ Qed.
 
 Theorem run_alone_perm_inside_schema : forall r s s' d,
   r <> R_OverlappingFieldsCanBeMerged ->
-  wf_schema s = true -> wf_schema s' = true ->
+  wf_schema s = true ->
   doc_types_proper d = true -> defaults_const d = true ->
-  distinct_fragments d = true -> distinct_operations d = true -> rule_in_scope r s d = true ->
+  distinct_fragments d = true -> rule_in_scope r s d = true ->
   perm_inside_schema s s' ->
   (run_alone r s d = [] <-> run_alone r s' d = []).
 Proof.
-  intros r s s' d Hr Hwf Hwf' Hty Hdc Hdf Hdo Hsc Hp.
+  intros r s s' d Hr Hwf Hty Hdc Hdf Hsc Hp.
   pose proof (sqr_of s s' Hp Hwf) as Hs.
+  pose proof (wf_schema_perm_inside s s' Hp Hwf) as Hwf'.
   assert (Hside : side r s d) by (repeat split; assumption).
   assert (Hside' : side r s' d).
   { rewrite (rule_in_scope_srel r s s' d Hs) in Hsc. repeat split; assumption. }
@@ -819,4 +960,5 @@ Proof.
   rewrite (violated_srel r s s' d Hs). reflexivity.
 Qed.
 
+Print Assumptions wf_schema_perm_inside.
 Print Assumptions run_alone_perm_inside_schema.
